@@ -6,6 +6,6 @@ GNext ==
   \/ \E n \in Names, a \in Addrs \cup {"<error>"}, k \in Offsets \cup {Never} :
         /\ Event(n, a, IF k = Never THEN Never ELSE now + k)
         /\ hist' = Append(hist, [a |-> "Event", n |-> n, addr |-> a, k |-> k])
-  \/ \E dt \in 1..3 : Advance(dt) /\ now + dt <= MaxNow /\ hist' = Append(hist, [a |-> "Advance", dt |-> dt])
+  \/ \E dt \in 0..3 : Advance(dt) /\ now + dt <= MaxNow /\ hist' = Append(hist, [a |-> "Advance", dt |-> dt])
 GSpec == GInit /\ [][GNext]_<<vars, hist>>
 ====
